@@ -391,9 +391,23 @@ def _link(stor, prim):
     tw._stale = False
 
 
-@H("double", "cpu", "contiguous", "float64", "requires_grad_", "coalesce", "resolve_conj", "resolve_neg")
+@H("double", "cpu", "float64", "requires_grad_", "coalesce", "resolve_conj", "resolve_neg")
 def _ident(self, *a, **k):
     return self
+
+
+@H("contiguous")
+def _contiguous(self, *a, **k):
+    # memory layout is the layout of the payload array (views are numpy views): torch returns the tensor itself when it
+    # is already contiguous and a fresh row-major copy otherwise
+    if self._arr.flags["C_CONTIGUOUS"]:
+        return self
+    return SymTensor(np.ascontiguousarray(self._arr))
+
+
+@H("is_contiguous")
+def _is_contiguous(self, *a, **k):
+    return bool(self._arr.flags["C_CONTIGUOUS"])
 
 
 @H("detach")
@@ -402,8 +416,11 @@ def _detach(self):
 
 
 @H("clone")
-def _clone(self, *a, **k):
-    return SymTensor(self._arr.copy())
+def _clone(self, *a, memory_format=None, **k):
+    # torch.preserve_format: a dense non-overlapping tensor keeps its strides (a transposed tensor stays transposed)
+    if memory_format is torch.contiguous_format:
+        return SymTensor(np.ascontiguousarray(self._arr).copy())
+    return SymTensor(self._arr.copy(order="K"))
 
 
 @H("numpy")
@@ -472,17 +489,41 @@ def _setitem(self, idx, val):
     return None
 
 
-@H("view", "reshape")
-def _viewop(self, *shape, **k):
+def _shape_args(shape):
     if len(shape) == 1 and isinstance(shape[0], (tuple, list, torch.Size)):
         shape = tuple(shape[0])
-    shape = tuple(int(s) for s in shape)
-    return _view(self, self._arr.reshape(shape))
+    return tuple(int(s) for s in shape)
+
+
+@H("reshape")
+def _reshapeop(self, *shape, **k):
+    return _reshaped(self, _shape_args(shape), "reshape")
+
+
+@H("view")
+def _viewop(self, *shape, **k):
+    shape = _shape_args(shape)
+    r = self._arr.reshape(shape)
+    if self._arr.size > 1 and not np.shares_memory(r, self._arr):
+        ASSUMED.add("Tensor.view raises exactly when numpy's no-copy reshape rule needs a copy")
+        raise RuntimeError("view size is not compatible with input tensor's size and stride (at least one dimension spans "
+                           "across two contiguous subspaces). Use .reshape(...) instead.")
+    return _view(self, r)
+
+
+def _reshaped(self, shape, prim):
+    """numpy and torch share the no-copy reshape rule: a view when the strides allow it, else a copy that no longer
+    aliases the operand"""
+    r = self._arr.reshape(shape)
+    v = _view(self, r)
+    if self._arr.size > 1 and v._stor is not self._stor:
+        ASSUMED.add("reshape of a non-contiguous tensor returns a copy exactly when numpy's no-copy reshape rule needs one")
+    return v
 
 
 @H("view_as")
 def _view_as(self, other):
-    return _view(self, self._arr.reshape(tuple(other.shape)))
+    return _reshaped(self, tuple(other.shape), "view_as")
 
 
 @H("flatten")
